@@ -73,6 +73,11 @@ def two_dummy_cases():
     for k1 in range(4, 20):
         for k2 in range(1, 12):
             out.append(('E0E1E2/D/D', '>0' + '1' * k1 + '2' * k2 + '>0>1>0>2'))
+    # two dummies in a row with a node enqueued behind them: a slow dequeuer (thread 1) frozen k steps in (it has seen the last node), a complete dequeue appends its
+    # dummy, the slow one goes on j steps (appends a second dummy, loses the head exchange), an enqueue completes, then two fresh dequeues, then the slow one ends
+    for k in range(2, 16):
+        for j in range(1, 22, 2):
+            out.append(('E0DDD/D/E1', '>0' + '1' * k + '>0' + '1' * j + '>2' + '>0>0' + '1' * 200))
     return out
 
 def gen_schedules(ctx, n):
